@@ -823,3 +823,33 @@ def wl_C09(rng, w, cfg, index):
                 yield {'op': 'FAULT', 'kind': k, 'params': p}
         yield {'op': 'PARSE', 'a': 1, 'path': 'f.xml', 'doc': 'p', 'valid': valid, 'corrupted': corrupt, 'writer': writer}
     return program(), {'writer': writer, 'corrupt': corrupt, 'size': size}
+
+
+# ---------------------------------------------------------------------------------- C20: thread programs
+def wl_C20(rng, w, cfg, index):
+    """One build-validate-serialise program on one own document (used as a thread's program)."""
+    kit = Kit(rng, w, dict(cfg, p_opaque=0.3, p_attrs=0.6, max_depth=2))
+    doc = cfg.get('doc', 'a0')
+    elem = cfg.get('element') or gen.pick_elements(rng, 1, index)[0]
+
+    def program():
+        yield {'op': 'NEW', 'a': 0, 'doc': doc, 'c': kit.rootspec(elem, True)}
+        root = w.docs.get(doc)
+        if root is None:
+            return
+        m = spec.model_for_element(elem)
+        word = m.sample_word(rng, maxlen=rng.randint(1, 5))
+        for x in word:
+            yield {'op': 'ADD', 'a': 0, 'p': [doc], 'c': kit.childspec(x)}
+        at = kit.valid_attrs(elem, 2)
+        for k, v in at.items():
+            yield {'op': 'ATTR_SET', 'a': 0, 'p': [doc], 'name': k, 'value': v}
+        yield from gen.complete(kit, 0, [doc], root)
+        yield {'op': 'TO_STRING', 'a': 0, 'p': [doc], 'ic': False}
+        if rng.random() < 0.4:
+            yield {'op': 'DEEPCOPY', 'a': 0, 'p': [doc], 'doc': doc + 'c'}
+            yield {'op': 'TO_STRING', 'a': 0, 'p': [doc + 'c'], 'ic': False}
+        if rng.random() < 0.3 and root.children:
+            yield {'op': 'REMOVE', 'a': 0, 'p': [doc], 'i': 0}
+            yield {'op': 'CHECK', 'a': 0, 'p': [doc]}
+    return program(), {'elements': [elem]}
